@@ -122,9 +122,11 @@ enum ROp {
     StoreCsvManifest,
     /// TextResource::to_txt_file (takes &self) to a scratch path that is not the resource's own stand-off file
     ResourceToTxtFile,
+    /// the inherent AnnotationDataSet::to_json_string / to_json_value (no Config argument)
+    DatasetInherentJson,
 }
 
-const ALL_OPS: [ROp; 12] = [ROp::StoreJson, ROp::ResourceToJson, ROp::DatasetToJson, ROp::ResourceInherentJson, ROp::Query, ROp::RelatedText, ROp::Parallel, ROp::QueryResultJson, ROp::ResourceToJsonFile, ROp::DatasetToCsv, ROp::StoreCsvManifest, ROp::ResourceToTxtFile];
+const ALL_OPS: [ROp; 13] = [ROp::StoreJson, ROp::ResourceToJson, ROp::DatasetToJson, ROp::ResourceInherentJson, ROp::Query, ROp::RelatedText, ROp::Parallel, ROp::QueryResultJson, ROp::ResourceToJsonFile, ROp::DatasetToCsv, ROp::StoreCsvManifest, ROp::ResourceToTxtFile, ROp::DatasetInherentJson];
 
 fn run_op(store: &AnnotationStore, op: ROp) -> String {
     match op {
@@ -184,6 +186,12 @@ fn run_op(store: &AnnotationStore, op: ROp) -> String {
             };
             let _ = std::fs::remove_file(&path);
             out
+        }
+        ROp::DatasetInherentJson => {
+            let s = store.datasets().next().expect("dataset");
+            let a = AnnotationDataSet::to_json_string(s.as_ref()).unwrap_or_else(|e| format!("ERR {}", e));
+            let b = s.as_ref().to_json_value().map(|v| v.to_string()).unwrap_or_else(|e| format!("ERR {}", e));
+            format!("{}\n{}", a, b)
         }
         ROp::DatasetToCsv => {
             let s = store.datasets().next().expect("dataset");
@@ -446,7 +454,7 @@ fn judge(rep: &mut Report, storekind: &str, ops: &[ROp], base: &[String], got: &
             // recorded root cause: ToJson::to_json_string / to_json_file on a resource or dataset switch the serialisation
             // mode cell that every clone of the store's Config shares, for the duration of their own serialisation
             let toggler = ops.iter().enumerate().any(|(j, o)| j != i && matches!(o, ROp::ResourceToJson | ROp::DatasetToJson | ROp::ResourceToJsonFile));
-            let sig = if toggler && what.contains("when-alone") || (toggler && what == "differs" && matches!(ops[i], ROp::StoreJson | ROp::QueryResultJson)) {
+            let sig = if toggler && what.contains("when-alone") || (toggler && what == "differs" && matches!(ops[i], ROp::StoreJson | ROp::QueryResultJson | ROp::DatasetInherentJson)) {
                 "C20/explained:resource-or-dataset-serialisation-toggles-the-mode-cell-shared-by-all-config-clones".to_string()
             } else {
                 format!("C20/{}/{}-disturbed-by-{}/{}", storekind, opname(ops[i]), others.join("+"), what)
@@ -462,7 +470,7 @@ fn judge(rep: &mut Report, storekind: &str, ops: &[ROp], base: &[String], got: &
 }
 
 pub fn run(p: &Params, rep: &mut Report) {
-    rep.rule = "stores with inline members and with stand-off (@include) resources and datasets (written to the work directory and reloaded; unchanged, and changed by one more annotation); reader operations: store.to_json_string, ToJson::to_json_string on a resource and on a dataset, ToJson::to_json_file on a resource (scratch file), ToCsv::to_csv_string on a dataset and on the store, TextResource::to_json_string, a SELECT query, QueryResultItem::to_json_string, related_text, the .parallel() adaptors. (i) controlled schedules: each reader parks at every yield point (serialisation-mode reads and writes, changed-flag reads and writes); for every pair of operations interleavings are enumerated depth-first up to a budget and then sampled with a seeded generator; triples are sampled; (ii) stress: 4-12 free-running threads with the hook injecting yield_now and microsecond sleeps. Every result is compared with the result of the same call running alone before and after, and the hooked dump must be unchanged; (iii) changed stand-off stores: the files a reader leaves behind must not depend on the reader that ran before it. distinct_nontrivial = distinct (store kind, operation tuple, interleaving trace) executed".into();
+    rep.rule = "stores with inline members and with stand-off (@include) resources and datasets (written to the work directory and reloaded; unchanged, and changed by one more annotation); reader operations: store.to_json_string, ToJson::to_json_string on a resource and on a dataset, ToJson::to_json_file on a resource (scratch file), ToCsv::to_csv_string on a dataset and on the store, TextResource::to_txt_file, TextResource::to_json_string, AnnotationDataSet::to_json_string / to_json_value, a SELECT query, QueryResultItem::to_json_string, related_text, the .parallel() adaptors. (i) controlled schedules: each reader parks at every yield point (serialisation-mode reads and writes, changed-flag reads and writes); for every pair of operations interleavings are enumerated depth-first up to a budget and then sampled with a seeded generator; triples are sampled; (ii) stress: 4-12 free-running threads with the hook injecting yield_now and microsecond sleeps. Every result is compared with the result of the same call running alone before and after, and the hooked dump must be unchanged; (iii) changed stand-off stores: the files a reader leaves behind must not depend on the reader that ran before it. distinct_nontrivial = distinct (store kind, operation tuple, interleaving trace) executed".into();
     rep.assumptions = vec!["yield points sit before every read or write of Config.serialize_mode and the changed flags (feature verif); other code between them is treated as atomic by the controlled schedules and exercised by the stress runs".into()];
     if let Some(v) = p.variant.as_deref() {
         if v == "miri" || v == "tsan" {
